@@ -186,7 +186,15 @@ def parser_obs(parser, args):
         r = mod.get_parsed_context(None if args is None else list(args))
     except Exception as e:
         return {'err': {'name': common.exc_name(e)}}
-    return {'ok': None if r is None else common.enc(dict(r) if not isinstance(r, dict) else r)}
+    from collections.abc import Mapping
+    if r is None:
+        return {'ok': None}
+    if isinstance(r, Mapping):
+        return {'ok': common.enc(dict(r))}
+    try:
+        return {'ok': {'not-a-mapping': common.enc(r)}}
+    except Exception:
+        return {'ok': {'not-a-mapping': repr(r)[:200]}}
 
 
 def parse_input_obs(parse_args, args_in, dict_in):
